@@ -68,10 +68,17 @@ pub fn gen_random(seed: u64, idx: u64) -> Plan {
             c.kind = ConnKind::H2;
             let n = r.usize_in(2, 5);
             let mut longest = 0;
+            // one such connection in three has a stream whose handler works
+            // for 10 to 40 s while the connection is otherwise silent
+            let long_one = if r.chance(1, 3) { Some(r.usize_in(0, n - 1)) } else { None };
             for j in 0..n {
                 let mut w = gen_work_req(&mut r, nonce, false);
                 w.chunked = None;
                 w.resp_bytes = w.resp_bytes.min(5000);
+                if long_one == Some(j) {
+                    w.steps = r.range(2, 5) as u32;
+                    w.step_ms = r.range(5_000, 8_000);
+                }
                 nonce += 1;
                 let dur = u64::from(w.steps) * w.step_ms;
                 longest = longest.max(dur);
